@@ -221,7 +221,10 @@ partial def runCircuitOps (ck : CloserKind) (c : Circ OState CState) (cfgSpec : 
         let (c', obs, res) := execute openerI closerI c op.ctx op.run op.fb
         let mo := mkObs c' obs res op
         let (spec, rb') := match parseObs op real with
-          | none => ("-", rb)
+          | none =>
+            -- C11: "without ... panic": a panic that is not the one the scripted run function / fallback raised
+            -- comes from the library itself
+            ((if (real.splitOn " ").contains "res=panic:other" then "!C11:the library itself panicked during a call (neither the run function nor the fallback raised it)" else "-"), rb)
           | some ro =>
             (joinVerdicts [("C01", verdictC01 cfgSpec adm pv op ro), ("C05", verdictC05 cfgSpec adm pv op ro),
               ("C06", verdictC06 cfgSpec op ro), ("C02", verdictC02 cfgSpec op ro), ("C07", verdictC07 cfgSpec op ro), ("C08", verdictC08 cfgSpec rb.openBefore pv op ro),
